@@ -249,6 +249,9 @@ def key_of(e, note, b=None):
     k, cls = e.get("k"), e.get("class", "?")
     kind = e.get("kind", k)
     what = {"Panic": "panic", "Timeout": "timeout", "Crash": "crash"}.get(k, note or "rejected")
+    if kind == "TlDecode" and what == "use":
+        m = re.match(r"panic: \*?([\w.\[\],()*]+?): ", e.get("use", ""))
+        return "C08:use:%s" % (m.group(1) if m else "?")
     if kind == "TlDecode":
         # the input class is what the bytes are with respect to the type (first guard of the TL reading they fail),
         # not the mutation that happened to produce them
@@ -264,7 +267,7 @@ def key_of(e, note, b=None):
     if kind == "Decode" and what == "use":
         # the call site is the accessor that panicked on the returned value (innermost first: parts are used before the
         # whole); which input produced such a value is in the replay
-        m = re.match(r"panic: \*?([\w.\[\],]+?): ", e.get("use", ""))
+        m = re.match(r"panic: \*?([\w.\[\],()*]+?): ", e.get("use", ""))
         return "C08:use:%s" % (m.group(1) if m else "?")
     if kind == "Decode" and e.get("seedid", -1) in BAD_SEEDS:
         return BAD_SEEDS[e["seedid"]]
@@ -495,7 +498,7 @@ def run(ck):
                     tltypes.add(e["ty"] + "/" + e["op"])
                 elif k == "Helper":
                     sites[e["site"]] = sites.get(e["site"], 0) + 1
-                if e.get("undumpable"):
+                if e.get("undumpable") and not e.get("use"):
                     raise Infra("harness cannot describe a value returned by %s: %s" % (e.get("ty"), e["undumpable"]))
     ck.extra["events"] = stats
     # returned values compared with the specification's own decoding of the same input (thorough tier / VERIF_C08_DEC=1):
@@ -678,6 +681,8 @@ def canaries(ck, dec_ok, asts, tl_ok, schema):
     c.append(h)
     u = copy.deepcopy(dec_ok); u["use"] = "panic: tlb.VmCellSlice.Cell: not enough cell bits"
     c.append(u)
+    tu = copy.deepcopy(tl_ok); tu["use"] = "panic: tl.Marshal(liteclient.X): runtime error: invalid memory address or nil pointer dereference"
+    c.append(tu)
     c.append(dec_ok)
     c.append(tl_ok)
     p = os.path.join(ck.work, "canary.ndjson")
@@ -690,8 +695,8 @@ def canaries(ck, dec_ok, asts, tl_ok, schema):
     ck.states, ck.transitions, ck.traces_ok, ck.evaluations = st
     got = [r["line"] for r in rej]
     ck.canary("C->S: Panic / Timeout / Crash / over allocation / over time / input bit changed under a returned value / input root truncated / TL input changed "
-              "under a returned value / TL over allocation / transactions without block ids / an accessor panicking on the returned value rejected; the two originals accepted",
-              got == list(range(1, 12)))
+              "under a returned value / TL over allocation / transactions without block ids / an accessor panicking on the returned TL-B value / re-encoding panicking on the returned TL value rejected; the two originals accepted",
+              got == list(range(1, 13)))
 
 
 def replay(ck, path):
